@@ -1,6 +1,6 @@
 // U7 — zvt/src/feig/sequences.rs: the firmware upload exchange of WriteFile::into_stream (DESIGN.md §6 C11; also C05/C06)
-// Extracted from the statement `src.write_packet_with_ack(&packet)` on; the manifest construction in front of it
-// (convert_dir, file sizes via seek, HashMap iteration) is outside reach and NOT part of the claim.
+// Two halves, split at the statement `src.write_packet_with_ack(&packet)`: the announcement (manifest) built in front of it
+// and the exchange from it on. `convert_dir` (std::path, directory probing) is outside reach: trusted shell.
 #![allow(unused_imports, unused_variables, dead_code, unused_mut, non_snake_case, unused_parens, unused_braces)]
 use vstd::prelude::*;
 verus! {
@@ -83,18 +83,60 @@ impl VFiles {
             self.paths().contains_key(*id) ==> (r matches Some(p) && p@ == self.paths()[*id]),
             !self.paths().contains_key(*id) ==> r is None,
     { unimplemented!() }
+    /// the order in which `HashMap::iter` happens to deliver the entries (arbitrary)
+    pub uninterp spec fn listing(&self) -> Seq<(&u8, &String)>;
+    /// `HashMap::iter()`: every entry exactly once, in some order (T5)
+    #[verifier::external_body]
+    pub fn iter<'a>(&'a self) -> (r: Vec<(&'a u8, &'a String)>)
+        ensures
+            r@ == self.listing(),
+            self.paths().dom().finite(), self.listing().len() == self.paths().dom().len(),
+            forall|i: int| 0 <= i < self.listing().len() ==> self.paths().contains_key(*(#[trigger] self.listing()[i]).0) && self.listing()[i].1@ == self.paths()[*self.listing()[i].0],
+            forall|i: int, j: int| 0 <= i < j < self.listing().len() ==> *(#[trigger] self.listing()[i]).0 != *(#[trigger] self.listing()[j]).0,
+    { unimplemented!() }
+    #[verifier::external_body]
+    pub fn len(&self) -> (r: usize) ensures self.paths().dom().finite(), r == self.paths().dom().len() { unimplemented!() }
 }
+#[verifier::external_body]
+pub struct PathBuf { _p: u8 }
 /// bytes of the file at a path (the disk is not modified during the upload)
 pub uninterp spec fn disk(path: Seq<char>) -> Seq<u8>;
-pub mod std { pub mod fs {
+pub mod std {
+pub mod io { pub enum SeekFrom { Start(u64), End(i64), Current(i64) } pub trait Read {} pub trait Seek {} }
+pub mod os { pub mod unix { pub mod fs { pub trait FileExt {} } } }
+pub mod fs {
     use vstd::prelude::*;
     use crate::{Result, disk};
-    pub struct File { pub path: Ghost<Seq<char>> }
+    use crate::std::io::SeekFrom;
+    /// an open regular file: which path it was opened on, and its cursor (A2: the disk does not change, no short reads)
+    pub struct File { pub path: Ghost<Seq<char>>, pub pos: Ghost<nat> }
     impl File {
         /// `std::fs::File::open(path)?`
         #[verifier::external_body]
         pub fn open(p: &String) -> (r: Result<File>)
-            ensures r matches Ok(f) ==> f.path@ == p@,
+            ensures r matches Ok(f) ==> f.path@ == p@ && f.pos@ == 0,
+        { unimplemented!() }
+        /// `Seek::seek(pos)?`: `End(0)` moves to the end and returns the size; `Start(p)` moves to p and returns p
+        #[verifier::external_body]
+        pub fn seek(&mut self, pos: SeekFrom) -> (r: Result<u64>)
+            ensures
+                final(self).path == old(self).path,
+                (pos matches SeekFrom::End(d) && d == 0) ==> (r matches Ok(n) ==> n == disk(old(self).path@).len() && final(self).pos@ == n),
+                pos matches SeekFrom::Start(p) ==> (r matches Ok(n) ==> n == p && final(self).pos@ == p),
+        { unimplemented!() }
+        /// `Read::read(&mut buf)?` at the cursor, which advances by what was read
+        #[verifier::external_body]
+        pub fn read(&mut self, buf: &mut [u8]) -> (r: Result<usize>)
+            ensures
+                final(self).path == old(self).path,
+                final(buf)@.len() == old(buf)@.len(),
+                r matches Ok(n) ==> ({
+                    let offset = old(self).pos@ as int;
+                    let avail = if offset >= disk(old(self).path@).len() { 0int } else { disk(old(self).path@).len() - offset };
+                    &&& n as int == (if avail < old(buf)@.len() { avail } else { old(buf)@.len() as int })
+                    &&& forall|i: int| 0 <= i < n ==> final(buf)@[i] == disk(old(self).path@)[offset + i]
+                    &&& final(self).pos@ == old(self).pos@ + n
+                }),
         { unimplemented!() }
         /// `FileExt::read_at(&mut buf, offset)?` — A2: as many bytes as fit and exist, no short reads
         #[verifier::external_body]
